@@ -1158,9 +1158,22 @@ func (c *Context) Pow(d, x, y *Decimal) (Condition, error) {
 		return 0, nil
 	}
 
-	if xs < 0 && !yIsInt {
+	if xs < 0 && (!yIsInt || y.Form == Infinite) {
 		d.Set(decimalNaN)
 		return c.goError(InvalidOperation)
+	}
+
+	if y.Form == Infinite {
+		// x is finite and positive: the result is the limit of x**n.
+		switch cmp := x.Cmp(decimalOne); {
+		case cmp == 0:
+			d.Set(decimalOne)
+		case (cmp > 0) != y.Negative:
+			d.Set(decimalInfinity)
+		default:
+			d.Set(decimalZero)
+		}
+		return 0, nil
 	}
 
 	// decNumber sets the precision to be max(x digits, c.Precision) +
